@@ -1195,7 +1195,7 @@ def inline_calls(body, src, depth=3, exclude=()):
     expressions (simple arguments only: identifiers, `&x`, `&mut x`, `self.f`, literals).  A trailing `Ok(())` / `Ok(value)` /
     `value` of the helper becomes nothing / the let's initialiser.  Followed `depth` levels (a simple chain of helpers)."""
     helpers = set(private_fns(src)) - set(exclude)
-    for _ in range(depth):
+    for _ in range(100 * depth):                 # one call is replaced per round
         progressed = False
         for name in sorted(helpers):
             for (a, b, args) in call_sites(body, name):
@@ -1203,9 +1203,11 @@ def inline_calls(body, src, depth=3, exclude=()):
                 lead = body[:a]
                 mlet = re.search(r"\blet\s+((?:mut\s+)?\w+)\s*(?::\s*[^=;]+?)?=\s*$", lead)
                 at_stmt_start = bool(re.search(r"(?:^|[;{}])\s*$", lead))
-                if not stmt or not (at_stmt_start or mlet):
+                # `pattern => helper(..)?,` : the call is the whole expression of a match arm
+                arm = re.match(r"\s*(\?)?\s*(?=[,}])", body[b:]) if re.search(r"=>\s*$", lead) else None
+                if not (stmt and (at_stmt_start or mlet)) and not arm:
                     continue
-                if not all(re.fullmatch(r"(?:&\s*(?:mut\s+)?)?(?:\*\s*)?[\w.]+(?:\(\))?|" + BYTE, x) for x in args):
+                if not all(re.fullmatch(r'(?:&\s*(?:mut\s+)?)?(?:\*\s*)?[\w.]+(?:\(\))?|"(?:\\.|[^"\\])*"|' + BYTE, x) for x in args):
                     continue
                 try:
                     params = fn_params(src, name)
@@ -1225,9 +1227,14 @@ def inline_calls(body, src, depth=3, exclude=()):
                 value = None
                 if not tail.endswith(";") and not re.match(r"(if|match|for|while|loop)\b", tail):
                     mo = re.fullmatch(r"Ok\(\s*(.*)\s*\)", tail, flags=re.S)
-                    value = (mo.group(1) if (mo and stmt.group(1)) else tail).strip()
+                    value = (mo.group(1) if (mo and (stmt or arm).group(1)) else tail).strip()
                 else:
                     head, value = text, None
+                if arm and not (stmt and at_stmt_start):
+                    blk = head + ("" if value in (None, "", "()") else value)
+                    body = body[:a] + "{" + blk + "}" + body[b + arm.end():]
+                    progressed = True
+                    break
                 if mlet:
                     if value in (None, "", "()"):
                         continue
@@ -1700,13 +1707,30 @@ def propagate_consts(text):
     return substitute(text, 0)
 
 
+def join_chains(text):
+    """rustfmt breaks method chains over lines (`dict\n    .get("X")\n    .map(..)`): the line breaks in front of `.name` are
+    removed (outside literals), so that a chain reads the same however it is laid out"""
+    spans = literal_spans(text)
+    out, last, si = [], 0, 0
+    for m in re.finditer(r"\s*\n\s*\.(?=[A-Za-z_])", text):
+        while si < len(spans) and spans[si][1] <= m.start():
+            si += 1
+        if si < len(spans) and spans[si][0] < m.end() and m.start() < spans[si][1]:
+            continue
+        out.append(text[last:m.start()])
+        out.append(".")
+        last = m.end()
+    out.append(text[last:])
+    return "".join(out)
+
+
 _SOURCE_CACHE = {}
 
 
 def source(rel):
     """the text the extractors read: comments stripped, named constants propagated"""
     if rel not in _SOURCE_CACHE:
-        _SOURCE_CACHE[rel] = propagate_consts(strip_comments(read(rel)))
+        _SOURCE_CACHE[rel] = propagate_consts(join_chains(strip_comments(read(rel))))
     return _SOURCE_CACHE[rel]
 
 
